@@ -134,6 +134,11 @@ class SymbolicExpression(Generic[T], ABC):
         # Also reset per-parent duplicate tracking and runtime eval parent to ensure reevaluation works
         self._seen_parent_values_by_parent_ = {}
         self._eval_parent_ = None
+        # which variables a parent requires from a child depends on the tree the nodes sit in, and that can change between
+        # evaluations (a sub-query evaluated on its own and then nested, a rule tree that gets another branch).
+        clear_cached_requirements = getattr(type(self)._required_variables_from_child_, "cache_clear", None)
+        if clear_cached_requirements is not None:
+            clear_cached_requirements()
 
     def _clear_result_caches_(self) -> None:
         """
